@@ -56,7 +56,7 @@ def gen_seq(rng, profile, length, dups=True):
     nvar = 0
     pid = 1
     used = set()
-    tree = profile == "tree"
+    tree = profile in ("tree", "tinytree")
     prefill = 0
     if profile == "growth":
         prefill = rng.randint(118, 132)
@@ -76,9 +76,12 @@ def gen_seq(rng, profile, length, dups=True):
         u = rng.random()
         if len(ops) < prefill:
             u = 0.0 if rng.random() < 0.93 else u
-        padd = {"small": 0.30, "growth": 0.45, "tree": 0.35, "boundary": 0.42}[profile]
+        padd = {"small": 0.30, "growth": 0.45, "tree": 0.35, "boundary": 0.42, "tiny": 0.22, "tinytree": 0.24}[profile]
         if u < padd:
-            ops.append(["add", fresh_hash(), pid]); pid += 1; n += 1
+            if pid > 1 and rng.random() < 0.08:
+                ops.append(["add", fresh_hash(), rng.randrange(1, pid)]); n += 1      # coincides with an earlier particle
+            else:
+                ops.append(["add", fresh_hash(), pid]); pid += 1; n += 1
         elif u < padd + 0.20:
             r = rng.random()
             if r < 0.72 and n > 0:
@@ -101,7 +104,7 @@ def gen_seq(rng, profile, length, dups=True):
         elif u < padd + 0.62:
             ops.append(["rmall"]); n = 0; nvar = 0
         elif u < padd + 0.68:
-            z = rng.choice([-1, n, n, max(0, n - 1), rng.randint(0, max(0, n))])
+            z = rng.choice([-1, n, n, max(0, n - 1), rng.randint(0, max(0, n)), 0, -2, -7])
             ops.append(["nact", z])
         else:
             if nvar:
@@ -146,7 +149,10 @@ class Spec:
         k = op[0]
         exp_code = None
         if k == "add":
-            self.ps.append([hval(op[1]), op[2], False]); exp_code = (9, 0)
+            if self.cfg and any(q[1] == op[2] and not q[2] for q in self.ps):
+                exp_code = (0, 0)           # identical coordinates: refused by the tree, nothing added
+            else:
+                self.ps.append([hval(op[1]), op[2], False]); exp_code = (9, 0)
             self.tree = self.tree or self.cfg
         elif k == "rmi":
             i, keep = op[1], op[2]
@@ -275,6 +281,8 @@ def _driver(mode):
                     if t == "add":
                         p = Particle(); p.m = float(op[2]); p.x = float(op[2]) * 1e-4; p._hash = h_c(op[1])
                         clib.reb_simulation_add(ctypes.byref(sim), p)
+                        if drain():
+                            code = 0        # reb_simulation_add is void: a refusal is visible as an error message
                     elif t == "rmi":
                         code = clib.reb_simulation_remove_particle(ctypes.byref(sim), ctypes.c_int(op[1]), ctypes.c_int(op[2]))
                     elif t == "rmh":
@@ -301,7 +309,10 @@ def _driver(mode):
                     drain()
                 else:
                     if t == "add":
-                        sim.add(m=float(op[2]), x=float(op[2]) * 1e-4, hash=h_py(op[1]))
+                        try:
+                            sim.add(m=float(op[2]), x=float(op[2]) * 1e-4, hash=h_py(op[1]))
+                        except RuntimeError:
+                            code = 0
                     elif t == "rmi":
                         try:
                             sim.remove(index=op[1], keep_sorted=bool(op[2])); code = 1
@@ -394,9 +405,9 @@ def _driver(mode):
 def gen_pykey(rng, n):
     u = rng.random()
     if u < 0.5:
-        return ["int", rng.randint(-n - 2, n + 2)]
+        return ["int", rng.randint(-n - 2, n + 2) if rng.random() < 0.9 else rng.choice([2**31, 2**32, -2**32, 2**70, -2**70])]
     if u < 0.75:
-        return ["hash", rng.choice(INTS + [py_murmur(rng.choice(NAMES).encode())])]
+        return ["hash", rng.choice(INTS + [py_murmur(rng.choice(NAMES).encode()), -1, 2**32, 2**32 + 3, -2**32 + 7])]
     return ["str", rng.choice(NAMES)]
 
 
@@ -419,8 +430,9 @@ def gen_pyseq(rng, length):
             ops.append(["len"])
         elif u < 0.97:
             v = rng.random()
-            idx = None if v < 0.4 else (rng.randrange(n) if n and rng.random() < 0.75 else rng.choice([n, -1, n + 2]))
-            hk = None if 0.3 < v < 0.9 else (["int", rng.choice(INTS)] if rng.random() < 0.4 else gen_pykey(rng, 0) if False else rng.choice([["hash", rng.choice(INTS)], ["str", rng.choice(NAMES)]]))
+            idx = None if v < 0.4 else (rng.randrange(n) if n and rng.random() < 0.7 else
+                                        rng.choice([n, -1, n + 2, 2**31 - 1, -2**31, 2**31, 2**32, 2**32 + 1, -2**32, 2**40 + 2, 2**63 - 1, -2**63]))
+            hk = None if 0.3 < v < 0.9 else (["int", rng.choice(INTS + [-1, 2**32 + 1, -2**32 + 2])] if rng.random() < 0.4 else gen_pykey(rng, 0) if False else rng.choice([["hash", rng.choice(INTS)], ["str", rng.choice(NAMES)]]))
             ops.append(["remove", idx, hk, 1 if rng.random() < 0.5 else 0])
             n = max(0, n - 1)
         else:
@@ -494,7 +506,7 @@ def coq_pykey(k):
     if k[0] == "int":
         return "(KInt (%d)%%Z)" % k[1]
     if k[0] == "hash":
-        return "(KHash %d)" % k[1]
+        return "(KHash %d)" % (k[1] % 2**32)       # ctypes.c_uint32(v) itself keeps the low 32 bits
     return "(KStr [%s])" % "; ".join(str(b) for b in k[1].encode("ascii"))
 
 
@@ -534,6 +546,17 @@ def pylayer_check(ctx, libdir):
         ctx.obligation("correspondence:C14 Python container layer", False, "driver exit %d: %s" % (r.returncode, r.stderr[-1500:]))
         return
     res = json.loads(r.stdout)
+    # library-only oracle: an index outside [0,N) must make Simulation.remove fail and change nothing
+    for sq, rs in zip(seqs, res):
+        nprev = 0; hit = None
+        for o, row in zip(sq["pyops"], rs["rows"]):
+            if o[0] == "remove" and o[1] is not None and not (0 <= o[1] < nprev) and (row[0] != 0 or row[2] != nprev):
+                hit = {"N_before": nprev, "op": o, "row_code_payload_N_Nactive": row}; break
+            nprev = row[2]
+        if hit:
+            ctx.violation("py_remove_index_truncated", dict(hit, sequence=sq["pyops"][:sq["pyops"].index(hit["op"]) + 1]), True,
+                          "Simulation.remove(index=%d) with N=%d did not fail: the index is truncated to 32 bits on its way to C" % (hit["op"][1], hit["N_before"]))
+            break
     texts = []
     for sq, rs in zip(seqs, res):
         rows = "; ".join("(%d, [%s], %d, %d)%%Z" % (c, "; ".join(str(x) for x in pay), n, na) for c, pay, n, na in rs["rows"])
@@ -984,10 +1007,11 @@ def run(ctx):
     # ---------------- sequences
     nseq = ctx.scale(160, 800)
     seqs = []
-    profiles = ["small", "small", "small", "tree", "tree", "growth", "growth", "boundary"]
+    profiles = ["small", "small", "tiny", "tree", "tinytree", "growth", "growth", "boundary", "tiny", "tree"]
     for k in range(nseq):
         prof = profiles[k % len(profiles)]
-        ln = {"small": rng.choice([12, 30, 60, 200]), "tree": rng.choice([15, 40, 120]),
+        ln = {"small": rng.choice([12, 30, 60, 200]), "tree": rng.choice([15, 40, 120]), "tiny": rng.choice([8, 25, 60]),
+              "tinytree": rng.choice([8, 25, 60]),
               "growth": 200, "boundary": rng.choice([160, 200])}[prof]
         if ctx.thorough and prof in ("growth", "boundary") and k % 5 == 0:
             ln = 420
@@ -1128,7 +1152,7 @@ def run(ctx):
     hc = []
     nh = ctx.scale(400, 6000)
     for k in range(nh):
-        ln = k % 41 if k < 82 else rng.randint(0, 40)
+        ln = k % 41 if k < 82 else rng.choice([255, 256, 257, 1023, 4099]) if k < 90 else rng.randint(0, 40)
         kind = rng.random()
         if kind < 0.4:
             bs = bytes(rng.randint(1, 255) for _ in range(ln))
